@@ -236,7 +236,7 @@ pub fn contractclient(attr: TokenStream, item: TokenStream) -> TokenStream {
                 #[allow(clippy::too_many_arguments, clippy::type_complexity)]
                 pub fn #try_fname(&self, #(#params),*) -> Result<Result<#ret, #sdk::ConversionError>, Result<#sdk::Error, #sdk::InvokeError>> {
                     if #sdk::model::nondet_callee_failure() {
-                        return Err(Ok(#sdk::Error::host(99)));
+                        return Err(#sdk::model::nondet_callee_error());
                     }
                     Ok(Ok(#hook(&self.env, &self.address, #(#pnames),*)))
                 }
